@@ -31,6 +31,36 @@ type Listener struct {
 	Kinds    []RouteKind       `json:"kinds,omitempty"`
 	From     string            `json:"from"` // Same, All, Selector
 	Selector map[string]string `json:"selector,omitempty"`
+	SelExprs []SelExpr         `json:"selExprs,omitempty"` // matchExpressions of the selector
+}
+
+// SelExpr is a label selector requirement.
+type SelExpr struct {
+	Key    string   `json:"key"`
+	Op     string   `json:"op"` // In, NotIn, Exists, DoesNotExist
+	Values []string `json:"values,omitempty"`
+}
+
+// Matches evaluates the requirement against a label set (Kubernetes semantics).
+func (e SelExpr) Matches(labels map[string]string) bool {
+	v, has := labels[e.Key]
+	in := false
+	for _, x := range e.Values {
+		if x == v {
+			in = true
+		}
+	}
+	switch e.Op {
+	case "In":
+		return has && in
+	case "NotIn":
+		return !has || !in
+	case "Exists":
+		return has
+	case "DoesNotExist":
+		return !has
+	}
+	return false
 }
 
 // ParentRef of a route.
@@ -166,6 +196,10 @@ func gatewayToK8s(o *Obj) client.Object {
 				ar.Namespaces.Selector = &metav1.LabelSelector{MatchLabels: map[string]string{}}
 				for k, v := range l.Selector {
 					ar.Namespaces.Selector.MatchLabels[k] = v
+				}
+				for _, e := range l.SelExprs {
+					ar.Namespaces.Selector.MatchExpressions = append(ar.Namespaces.Selector.MatchExpressions, metav1.LabelSelectorRequirement{
+						Key: e.Key, Operator: metav1.LabelSelectorOperator(e.Op), Values: append([]string{}, e.Values...)})
 				}
 			}
 			for _, k := range l.Kinds {
